@@ -19,9 +19,13 @@ TECHNIQUE = ("runtime monitoring: tick-end invariant on the set of active blocks
 RULE = ("seeded P-code generator (nested and sequential Block to depth 4, End block / End blocks in block bodies, in "
         "Watch/Alarm bodies and at arbitrary places, Watch/Alarm inside and outside blocks, blocks started from "
         "interrupt bodies, Wait, thresholds, UOD commands, macros in a minority) x scripted FT01 trajectory; about one "
-        "case in six also has a Restart / Stop (+Start) issued by the user or by the method. distinct = shape hash of "
-        "the method text x run-control variant; non-trivial = at least two blocks acquired the lock, or an End "
-        "block(s) was executed by an interrupt, or a block ended with a registered Watch/Alarm inside")
+        "case in six also has a Restart / Stop (+Start) issued by the user or by the method. 15 % of the cases are of "
+        "the macro class: Blocks on the main path and / or started from a Watch/Alarm body call a macro of 3-7 lines "
+        "with Waits, and End block(s) is executed by another Watch/Alarm (root level, outer block, or pending inside "
+        "the block) or by the main path at a tick placed by a dry run inside / around the time the call is in "
+        "progress. distinct = shape hash of the method text x run-control variant; non-trivial = at least two blocks "
+        "acquired the lock, or an End block(s) was executed by an interrupt, or a block ended with a registered "
+        "Watch/Alarm inside, or a block ended while a macro call inside it had lines left")
 ASSUMPTIONS = [
     "a block is active when lock_acquired and not block_ended (the lock flag is dropped one tick after End block)",
     "'innermost' / 'End block ends exactly the innermost active block' are read dynamically: whichever path (main "
@@ -34,6 +38,14 @@ ASSUMPTIONS = [
     "block ended is not registered at any later tick end, and no line below a Watch/Alarm of an ended block is "
     "executed (a bare started flag without execution is counted, not judged). A Watch/Alarm whose line had started "
     "before the end and which registers afterwards was not pending: counted, not judged",
+    "'ends the block' also covers what executes dynamically inside it: a line of a macro body (executed inline by "
+    "the caller, i.e. not below a Watch/Alarm of the macro body) must not start in a tick after the tick in which "
+    "every call of that macro that is in progress (CallMacroNode started, not completed, not reset) came to lie "
+    "lexically inside an ended block. Not judged, counted: starts in the End-block tick itself; a start while some "
+    "other call in progress lies outside every ended block (shared macro body); the first late line of a call if it "
+    "has a threshold (its visit - run-log state 'awaiting threshold' - had begun before the block ended, and whether "
+    "an instruction in progress at the end may still complete is not decided by the statement); a bare started flag "
+    "without execution; calls made from inside another macro body (only lexical Block ancestors of the call count)",
     "the Block tag is compared at tick ends only; None and '' both mean empty; it is also compared while the system "
     "is Stopped / Restarting (no block is active then)",
     "a block that acquires the lock although an enclosing block has already ended (its line had started before) is "
@@ -44,7 +56,11 @@ REQUIRED = {"tick_end_checks": 40000, "ticks_with_active_block": 12000, "ticks_w
             "lock_acquisitions": 2000, "nested_lock_acquisitions": 1000, "end_block_checks": 1000,
             "end_block_by_interrupt": 600, "end_blocks_checks": 400, "sibling_after_block_checks": 1500,
             "block_end_with_registered_interrupt": 400, "run_boundaries": 100,
-            "run_boundaries_with_active_block": 20}
+            "run_boundaries_with_active_block": 20,
+            "macro_line_start_checks": 500, "macro_calls_inside_block_from_interrupt": 100,
+            "block_ended_during_macro_call": 120, "block_ended_during_macro_call_block_from_interrupt": 70,
+            "block_ended_during_macro_call_by_interrupt": 100, "block_ended_during_macro_call_by_main_path": 25,
+            "block_ended_during_macro_call_with_lines_left": 100}
 
 
 class Gen5(Gen):
@@ -388,6 +404,8 @@ def check_case(case, res: Result):
         calls_open: dict[tuple, dict] = {}     # (pyid of program, macro name) -> {pyid: CallMacroNode started, not completed}
         macro_of: dict[int, object] = {}       # pyid of a line -> MacroNode whose body executes it inline, or None
         macro_after_end = []                   # starts of macro-body lines judged after the walk
+        late_seen = set()                      # (program, macro, end tick) that had a line start after the block end
+        call_reset_while_running: dict[tuple, int] = {}    # (program, macro name) -> first tick (see below)
 
         def top_of(x):
             ps = x.parents
@@ -579,9 +597,10 @@ def check_case(case, res: Result):
                     elif isinstance(a, p.BlockNode) and seen_cond is not None and S(id(a))["block_ended"]:
                         after_block_end.append((idx, n, seen_cond, a, tick))
                         break
-            if field == "started" and new is True and not isinstance(n, p.WhitespaceNode):
+            if field == "started" and new is True and ctx != pid and not isinstance(n, p.WhitespaceNode):
                 # ---- nothing that executes dynamically inside an ended block starts any more: a line of a macro
                 # body all of whose calls in progress lie (lexically) inside a block that ended in an earlier tick
+                # (a Watch/Alarm line of the macro body that is started again by its own handler is not such a start)
                 m = inline_macro(n)
                 if m is not None:
                     cs = calls_open.get((top_of(n), m.macro_name))
@@ -598,10 +617,20 @@ def check_case(case, res: Result):
                         if any(isinstance(b, p.BlockNode) for c in cs.values() for b in c.parents):
                             res.count("macro_line_start_checks_call_inside_block")
                         if all(t is not None for _, t in ends):
-                            if all(t < tick for _, t in ends):
-                                macro_after_end.append((idx, n, m, ends, tick))
-                            else:
+                            k_late = (top_of(n), m.macro_name, max(t for _, t in ends))
+                            first_late = k_late not in late_seen
+                            late_seen.add(k_late)
+                            if not all(t < tick for _, t in ends):
                                 res.count("macro_line_started_in_block_end_tick_not_judged")
+                            elif first_late and n.threshold is not None:
+                                # the visit of a line with a threshold begins (run-log state "awaiting threshold")
+                                # before the line is started; if the block ends while it waits, the interpreter lets
+                                # that one line run when its threshold has passed. Whether a line whose visit was in
+                                # progress when the block ended may still complete is not decided by the statement:
+                                # the first late line of a call is counted, not judged, if it has a threshold
+                                res.count("macro_line_with_threshold_first_after_block_end_not_judged")
+                            else:
+                                macro_after_end.append((idx, n, m, ends, tick))
                         elif any(t is not None for _, t in ends):
                             res.count("macro_line_start_other_call_outside_ended_block_not_judged")
             if isinstance(n, p.CallMacroNode):
@@ -616,7 +645,13 @@ def check_case(case, res: Result):
                                    for a in b.parents):
                                 res.count("macro_calls_inside_block_from_interrupt")
                 elif (field == "completed" and new is True) or (field == "started" and new is False):
-                    calls_open.get(k_open, {}).pop(pid, None)
+                    was_open = calls_open.get(k_open, {}).pop(pid, None)
+                    if was_open is not None and field == "started" and not any(
+                            isinstance(b, p.BlockNode) and S(id(b))["block_ended"] for b in n.parents):
+                        # a call in progress that was not cut short by a block end is reset (re-arm of an enclosing
+                        # Alarm / re-invocation of an enclosing macro): a surviving handler may still be executing it
+                        call_reset_while_running.setdefault(k_open, tick)
+                        res.count("macro_call_reset_while_in_progress")
                 if field == "started" and new is True:
                     mac_active[n.macro_name] = mac_active.get(n.macro_name, 0) + 1
                     mac_max[n.macro_name] = max(mac_max.get(n.macro_name, 0), mac_active[n.macro_name])
@@ -638,6 +673,8 @@ def check_case(case, res: Result):
                 res.count("start_flag_only_after_block_end")
                 continue
             mech = "C05.macro_body_continues_after_block_end"
+            if call_reset_while_running.get((top_of(n), m.macro_name), 10 ** 9) <= tick:
+                mech = "C05.interrupt_survives_reset_of_enclosing_scope"
             for c, _t in ends:
                 for x in c.parents:
                     if (isinstance(x, p.NodeWithCondition) and S(id(x))["stale"] and any(
